@@ -371,10 +371,8 @@ func flattenMetadata(data map[string]interface{}, prefix string) map[string]inte
 
 // exportJSONL exports chunks as JSON Lines (one JSON object per line)
 func (e *Exporter) exportJSONL(chunks []*Chunk, w io.Writer) error {
+	// JSON Lines is one object per line: PrettyPrint does not apply to this format
 	encoder := json.NewEncoder(w)
-	if e.config.PrettyPrint {
-		encoder.SetIndent("", "  ")
-	}
 
 	for i, chunk := range chunks {
 		exported := e.prepareChunkForExport(chunk, i)
